@@ -418,7 +418,9 @@ class FnVals:
                 v = self._field(v, e.get("name") if e.get("name") is not None else e["idx"], e["idx"], e.get("adt"))
             elif k == "downcast":
                 v = V("variant", dict(variant=e.get("variant")), [v], fn=self.fn)
-            elif k in ("index", "cidx", "subslice"):
+            elif k == "index":
+                v = V("index", dict(e=e), [v, self.at_local(e["local"], bb, idx)], fn=self.fn)
+            elif k in ("cidx", "subslice"):
                 v = V("index", dict(e=e), [v], fn=self.fn)
             else:
                 v = V("unknown", {}, [v], fn=self.fn)
@@ -568,6 +570,39 @@ class FnVals:
         if len(outs) == 1:
             return outs[0]
         return V("phi", {}, outs, fn=fn)
+
+
+def struct_return(fx, fn, depth=0):
+    """Follow `fn`'s return value to the struct literal it builds, through crate-local helpers that return the struct.
+    Returns (host_fn, aggregate_node, chain) where chain = [call nodes from fn down to host_fn]; (None, None, []) if not found."""
+    rv = peel(vals(fn).return_value())
+    if rv.kind == "agg":
+        return (fn, rv, [])
+    if rv.kind == "call" and rv.d["term"].get("resolved_local") and rv.d["term"].get("resolved") in fx.fns and depth < 3:
+        callee = fx.fns[rv.d["term"]["resolved"]]
+        if callee is not fn:
+            host, agg, chain = struct_return(fx, callee, depth + 1)
+            if agg is not None:
+                return (host, agg, [rv] + chain)
+    return (None, None, [])
+
+
+def derives_through(chain, host_fn, node, pred):
+    """may `node` (in host_fn's tree) derive from something satisfying pred, following parameters up through the call chain"""
+    frontier = [(len(chain), node)]
+    seen = set()
+    while frontier:
+        lvl, n = frontier.pop()
+        for x in walk(n):
+            if pred(x):
+                return True
+            if x.kind == "param" and lvl > 0 and id(x) not in seen:
+                seen.add(id(x))
+                call = chain[lvl - 1]
+                i = x.d["idx"] - 1
+                if i < len(call.kids):
+                    frontier.append((lvl - 1, call.kids[i]))
+    return False
 
 
 _cache = {}
